@@ -12,11 +12,20 @@
    * With an INFINITE nodata value the code flags infinite samples of both signs (np.isinf);
      mask_semantics / samples_unchanged carry the explicit guard [opposite_inf ... = false]
      for the pixel they speak about.  Nothing else is excluded.
+   * C16_gen_*: the functions of img_tools.py that decide the property (add_disparity, add_classif,
+     add_segm, add_no_data, add_mask, create_dataset_from_inputs) are REGENERATED at every run into
+     Gen/DatasetFns.v (translator/gen_dataset_fns.py, statement by statement, over the numpy / xarray /
+     rasterio primitives of Model/DatasetPrims.v).  C16_gen_add_*_eq and C16_gen_create_eq are the per-run
+     obligations "what the code says now computes what the model computes, for all inputs" (arrays are
+     compared with arr_eq: same shape, same value at every index); the C16_gen_* theorems after them restate
+     the theorems above on the generated create_dataset_from_inputs (G), window computation included.
    * D6 (negative mask values were valid) and D7 (a ROI adjacent to the image was not refused)
      were refuted here on the code as found, with witnesses now kept as regression Examples
      (Proofs/DatasetP.v negative_mask_value_is_invalid, Proofs/WindowP.v roi_right_after_last_column_refused etc.). *)
-From Coq Require Import List Bool ZArith QArith.
-From Pandora Require Import Model.Dataset Spec.Dataset Proofs.DatasetP Proofs.WindowP Gen.Window.
+From Coq Require Import List Bool ZArith QArith String.
+From Pandora Require Import Model.Dataset Model.DatasetPrims Spec.Dataset Proofs.DatasetP Proofs.WindowP
+     Proofs.DatasetGenP Gen.Window.
+From Pandora Require Gen.DatasetFns.
 Import ListNotations.
 Open Scope Z_scope.
 
@@ -138,6 +147,223 @@ Theorem C16_disparity_var :
     /\ d_segm ds = option_map (read win) (i_segm inp).
 Proof. exact disparity_var. Qed.
 
+(* ================================================================== on the generated functions *)
+
+Module G := Pandora.Gen.DatasetFns.
+
+(* ---- per-run obligations: generated = model, for all inputs *)
+
+(* add_disparity updates band_disp, the disparity variable ([min,max] broadcast to the image shape, or the
+   two bands of the grid read through the window) and attrs["disparity_source"]; nothing else *)
+Theorem C16_gen_add_disparity_eq : forall ds d win,
+  G.add_disparity ds d win =
+  mkX (x_im ds) (x_im_dims ds) (x_band_im ds) (x_row ds) (x_col ds) (x_valid_pixels ds)
+      (x_no_data_mask ds) (x_no_data_img ds) (Some d) (x_msk ds)
+      (match d with DispNone => x_band_disp ds | _ => Some ["min"%string; "max"%string] end)
+      (match d with
+       | DispNone => x_disparity ds
+       | DispPair a b => Some [const_arr (ds_size_row ds) (ds_size_col ds) (sz a);
+                               const_arr (ds_size_row ds) (ds_size_col ds) (sz b)]
+       | DispGrid g1 g2 => Some [read win g1; read win g2]
+       end)
+      (x_band_classif ds) (x_classif ds) (x_segm ds).
+Proof. exact gen_add_disparity_eq. Qed.
+
+(* add_classif / add_segm attach the rasters (descriptions, every band / band 1) read through the window *)
+Theorem C16_gen_add_classif_segm_eq : forall ds c s win,
+  G.add_classif ds c win =
+  mkX (x_im ds) (x_im_dims ds) (x_band_im ds) (x_row ds) (x_col ds) (x_valid_pixels ds)
+      (x_no_data_mask ds) (x_no_data_img ds) (x_disparity_source ds) (x_msk ds) (x_band_disp ds)
+      (x_disparity ds)
+      (match c with Some f => Some (rf_desc f) | None => x_band_classif ds end)
+      (match c with Some f => Some (map (read win) (rf_bands f)) | None => x_classif ds end)
+      (x_segm ds)
+  /\
+  G.add_segm ds s win =
+  mkX (x_im ds) (x_im_dims ds) (x_band_im ds) (x_row ds) (x_col ds) (x_valid_pixels ds)
+      (x_no_data_mask ds) (x_no_data_img ds) (x_disparity_source ds) (x_msk ds) (x_band_disp ds)
+      (x_disparity ds) (x_band_classif ds) (x_classif ds)
+      (match s with Some f => Some (read win (band1 f)) | None => x_segm ds end).
+Proof. intros. split; [apply gen_add_classif_eq|apply gen_add_segm_eq]. Qed.
+
+(* add_no_data, given no_data_pixels = np.where(t(im)): when the nodata value is NaN/inf and some sample
+   passes t, exactly the samples passing t become -9999 and attrs["no_data_img"] = -9999; else the image is
+   untouched and attrs["no_data_img"] = nodata ([add_no_data_attr] of the model); nothing else changes *)
+Theorem C16_gen_add_no_data_eq : forall ds (nv : sample) (t : sample -> bool),
+  let any := any_px t (nd_bands (x_im ds)) in
+  let w := np_where (np_map t (x_im ds)) in
+  G.add_no_data ds nv w =
+  mkX (if any && special nv then nd_assign_where (x_im ds) w minus9999 else x_im ds)
+      (x_im_dims ds) (x_band_im ds) (x_row ds) (x_col ds) (x_valid_pixels ds)
+      (x_no_data_mask ds) (Some (add_no_data_attr nv any)) (x_disparity_source ds) (x_msk ds)
+      (x_band_disp ds) (x_disparity ds) (x_band_classif ds) (x_classif ds) (x_segm ds)
+  /\ nd_bands (nd_assign_where (x_im ds) w minus9999) =
+     map (fun a => assign_where a (fun r c => t (px a r c)) minus9999) (nd_bands (x_im ds)).
+Proof. intros. split; [apply gen_add_no_data_eq|apply nd_assign_where_bands]. Qed.
+
+(* add_mask, given no_data_pixels = np.where(t(im)), writes the msk variable the model's add_mask describes
+   (absent when there is no mask and nothing passes t; else valid_pixels, then 2 where the input mask is not 0,
+   then no_data_mask where some band passes t -- in that order) and changes nothing else *)
+Theorem C16_gen_add_mask_eq : forall ds mask (t : sample -> bool) width height win,
+  x_msk ds = None -> x_valid_pixels ds = valid_pixels -> x_no_data_mask ds = no_data_mask ->
+  let any := any_px t (nd_bands (x_im ds)) in
+  let w := np_where (np_map t (x_im ds)) in
+  exists m,
+    G.add_mask ds mask w width height win =
+    mkX (x_im ds) (x_im_dims ds) (x_band_im ds) (x_row ds) (x_col ds) (x_valid_pixels ds)
+        (x_no_data_mask ds) (x_no_data_img ds) (x_disparity_source ds) m
+        (x_band_disp ds) (x_disparity ds) (x_band_classif ds) (x_classif ds) (x_segm ds)
+    /\ opt_rel arr_eq m
+         (Dataset.add_mask height width (option_map (fun f => read win (band1 f)) mask) any
+                           (fun r c => existsb (fun a => t (px a r c)) (nd_bands (x_im ds)))).
+Proof. exact gen_add_mask_eq. Qed.
+
+(* the whole create_dataset_from_inputs(input_config, roi) as generated -- defaults of the input section,
+   size of the image file, get_window, which window goes to which read, 2-D / 3-D image, coordinates, the
+   three-way nodata test, the order add_disparity / add_classif / add_segm / add_no_data / add_mask -- raises
+   what the model raises, and otherwise returns a dataset equal to the model's in every variable, coordinate
+   and attribute the model has ([ds_rel]), with the image dims, band_disp and disparity_source as documented *)
+Theorem C16_gen_create_eq : forall xi roi,
+  match G.create_dataset_from_inputs xi roi, model_create (to_inputs xi) roi with
+  | COk g, MOk m =>
+    (Forall2 arr_eq (nd_bands (x_im g)) (d_im m) /\
+     x_band_im g = d_band_im m /\ x_row g = d_row m /\ x_col g = d_col m /\
+     x_valid_pixels g = 0 /\ x_no_data_mask g = 1 /\
+     x_no_data_img g = Some (d_nodata m) /\
+     opt_rel arr_eq (x_msk g) (d_msk m) /\
+     opt_rel (fun l p => Forall2 arr_eq l [fst p; snd p]) (x_disparity g) (d_disp m) /\
+     x_band_classif g = option_map fst (d_classif m) /\
+     opt_rel (Forall2 arr_eq) (x_classif g) (option_map snd (d_classif m)) /\
+     opt_rel arr_eq (x_segm g) (d_segm m)) /\
+    x_im_dims g = (if rf_count (xi_img xi) =? 1 then ["row"%string; "col"%string]
+                   else ["band_im"%string; "row"%string; "col"%string]) /\
+    x_band_disp g = (match cfg_get DispNone (xi_disp xi) with
+                     | DispNone => None | _ => Some ["min"%string; "max"%string] end) /\
+    x_disparity_source g = xi_disp xi
+  | CRaiseOutside, MRaiseOutside => True
+  | CRaiseNegative, MRaiseNegative => True
+  | _, _ => False
+  end.
+Proof.
+  intros xi roi. pose proof (gen_create_eq xi roi) as R. unfold cres_rel in R.
+  destruct (G.create_dataset_from_inputs xi roi), (model_create (to_inputs xi) roi); auto.
+  destruct R as [[] [? [? ?]]]. repeat split; assumption.
+Qed.
+
+(* every raster read has the out_dtype the property speaks of: float32 for the image and the disparity grid,
+   int16 for classification and segmentation, the file's own type for the mask *)
+Theorem C16_gen_read_dtypes :
+  G.read_dtypes =
+  [("add_disparity"%string, DtFloat32); ("add_classif"%string, DtInt16); ("add_segm"%string, DtInt16);
+   ("add_mask"%string, DtNative);
+   ("create_dataset_from_inputs"%string, DtFloat32); ("create_dataset_from_inputs"%string, DtFloat32)].
+Proof. exact gen_read_dtypes. Qed.
+
+(* ---- the theorems of the property, on the generated create_dataset_from_inputs
+   [reads_through xi roi win]: win is None without a ROI, else the window get_window returns for the size of
+   the image file; [xdata xi win]: the bands of the image file read through win *)
+
+Theorem C16_gen_mask_semantics : forall xi roi g,
+  G.create_dataset_from_inputs xi roi = COk g ->
+  x_valid_pixels g = 0 /\ x_no_data_mask g = 1 /\
+  exists win, reads_through xi roi win /\
+    let nv := xi_nodata xi in
+    let data := xdata xi win in
+    forall r c,
+      (forall a, In a data -> 0 <= r < nr a /\ 0 <= c < nc a) ->
+      (forall a, In a data -> opposite_inf nv (px a r c) = false) ->
+      class_at (x_msk g) r c =
+      spec_class nv (map (fun a => px a r c) data)
+                 (option_map (fun f => px (read win (band1 f)) r c) (cfg_get None (xi_mask xi))).
+Proof. exact gen_mask_semantics. Qed.
+
+Theorem C16_gen_mask_absent_iff : forall xi roi g,
+  G.create_dataset_from_inputs xi roi = COk g ->
+  exists win, reads_through xi roi win /\
+    (x_msk g = None <->
+     (cfg_get None (xi_mask xi) = None /\
+      forall a r c, In a (xdata xi win) -> 0 <= r < nr a -> 0 <= c < nc a ->
+                    nodata_test (xi_nodata xi) (px a r c) = false)).
+Proof. exact gen_mask_absent_iff. Qed.
+
+Theorem C16_gen_samples_unchanged : forall xi roi g,
+  G.create_dataset_from_inputs xi roi = COk g ->
+  exists win, reads_through xi roi win /\
+    let nv := xi_nodata xi in
+    Forall2 (fun out d =>
+               nr out = nr d /\ nc out = nc d /\
+               forall r c, 0 <= r < nr d -> 0 <= c < nc d ->
+                           opposite_inf nv (px d r c) = false ->
+                           px out r c = spec_sample nv (px d r c))
+            (nd_bands (x_im g)) (xdata xi win)
+    /\ x_band_im g = match xdata xi win with [_] => None | _ => Some (rf_desc (xi_img xi)) end
+    /\ x_im_dims g = (if rf_count (xi_img xi) =? 1 then ["row"%string; "col"%string]
+                      else ["band_im"%string; "row"%string; "col"%string]).
+Proof. exact gen_samples_unchanged. Qed.
+
+Theorem C16_gen_disparity_var : forall xi roi g,
+  G.create_dataset_from_inputs xi roi = COk g ->
+  exists win, reads_through xi roi win /\
+    let '(ny, nx) := shape_of (xdata xi win) in
+    match cfg_get DispNone (xi_disp xi) with
+    | DispNone => x_disparity g = None /\ x_band_disp g = None
+    | DispPair a b =>
+      exists d1 d2, x_disparity g = Some [d1; d2] /\ x_band_disp g = Some ["min"%string; "max"%string] /\
+        nr d1 = ny /\ nc d1 = nx /\ nr d2 = ny /\ nc d2 = nx /\
+        forall r c, px d1 r c = sz a /\ px d2 r c = sz b
+    | DispGrid g1 g2 =>
+      exists d1 d2, x_disparity g = Some [d1; d2] /\ x_band_disp g = Some ["min"%string; "max"%string] /\
+        arr_eq d1 (read win g1) /\ arr_eq d2 (read win g2)
+    end
+    /\ x_disparity_source g = xi_disp xi
+    /\ x_band_classif g = option_map rf_desc (cfg_get None (xi_classif xi))
+    /\ opt_rel (Forall2 arr_eq) (x_classif g)
+               (option_map (fun f => map (read win) (rf_bands f)) (cfg_get None (xi_classif xi)))
+    /\ opt_rel arr_eq (x_segm g) (option_map (fun f => read win (band1 f)) (cfg_get None (xi_segm xi))).
+Proof. exact gen_disparity_var. Qed.
+
+(* the generated function with a ROI against the generated function without one: coordinates, every band of
+   im, band names, the classification of every pixel, disparity, classif, segm of the ROI dataset are the crop
+   of those of the whole dataset to [first - margin, last + margin] clipped to the image *)
+Theorem C16_gen_roi_dataset : forall xi r gf gr W H,
+  rf_bands (xi_img xi) <> [] ->
+  Forall (fun a => nr a = H /\ nc a = W) (rf_bands (xi_img xi)) ->
+  let cf := r_col_first r in let cl := r_col_last r in
+  let rf := r_row_first r in let rl := r_row_last r in
+  let m0 := r_m_left r in let m1 := r_m_up r in let m2 := r_m_right r in let m3 := r_m_down r in
+  cf - m0 <= cl + m2 -> rf - m1 <= rl + m3 ->
+  G.create_dataset_from_inputs xi None = COk gf ->
+  G.create_dataset_from_inputs xi (Some r) = COk gr ->
+  (forall c, In c (x_col gr) <-> in_roi cf cl m0 m2 W c) /\
+  (forall i, In i (x_row gr) <-> in_roi rf rl m1 m3 H i) /\
+  x_col gf = zrange 0 W /\ x_row gf = zrange 0 H /\
+  exists co ro w h,
+    get_window cf cl rf rl m0 m1 m2 m3 W H = Window co ro w h /\
+    x_col gr = zrange co w /\ x_row gr = zrange ro h /\
+    Forall2 (crop_of co ro w h) (nd_bands (x_im gf)) (nd_bands (x_im gr)) /\
+    x_band_im gr = x_band_im gf /\
+    (forall i j, 0 <= i < h -> 0 <= j < w ->
+                 class_at (x_msk gr) i j = class_at (x_msk gf) (ro + i) (co + j)) /\
+    opt_rel (Forall2 (crop_of co ro w h)) (x_disparity gf) (x_disparity gr) /\
+    x_band_classif gr = x_band_classif gf /\
+    opt_rel (Forall2 (crop_of co ro w h)) (x_classif gf) (x_classif gr) /\
+    opt_rel (crop_of co ro w h) (x_segm gf) (x_segm gr).
+Proof. exact gen_roi_dataset. Qed.
+
+(* the generated function refuses a ROI exactly when no pixel of the image lies in it with its margins,
+   raises nothing else, and never refuses a read without a ROI *)
+Theorem C16_gen_refused_iff_empty : forall xi r,
+  let cf := r_col_first r in let cl := r_col_last r in
+  let rf := r_row_first r in let rl := r_row_last r in
+  let m0 := r_m_left r in let m1 := r_m_up r in let m2 := r_m_right r in let m3 := r_m_down r in
+  let W := rf_width (xi_img xi) in let H := rf_height (xi_img xi) in
+  cf - m0 <= cl + m2 -> rf - m1 <= rl + m3 ->
+  (G.create_dataset_from_inputs xi (Some r) = CRaiseOutside
+   <-> ~ exists c i, in_roi cf cl m0 m2 W c /\ in_roi rf rl m1 m3 H i) /\
+  G.create_dataset_from_inputs xi (Some r) <> CRaiseNegative /\
+  exists g, G.create_dataset_from_inputs xi None = COk g.
+Proof. exact gen_refused_iff_empty. Qed.
+
 (* Non-vacuity: a 2-band 2x3 raster with a NaN sample, a negative mask value and a clipped ROI. *)
 Definition ex_band (f : Z -> Z -> sample) : arr sample := mkArr 2 3 f.
 Definition ex_inp : inputs :=
@@ -153,6 +379,22 @@ Example C16_example :
   class_at (d_msk (create_dataset ex_inp None)) 1 2 = PInvalid.
 Proof. repeat split. Qed.
 
+(* the same on the generated function: the input section with the mask key, "disp": [-2, 2], no classif /
+   segm keys, a clipped ROI; and a ROI outside the image *)
+Definition ex_xi : xinputs :=
+  mkXin (mkRfile [0; 1] (i_img ex_inp)) SNaN
+        (Some (Some (mkRfile [] [mkArr 2 3 (fun r c => if (r =? 1) && (c =? 2) then -5 else 0)])))
+        (Some (DispPair (-2) 2)) None (Some None).
+Example C16_gen_example :
+  (exists g, G.create_dataset_from_inputs ex_xi (Some (mkRoi 1 5 (-2) 0 0 0 1 0)) = COk g /\
+             x_col g = [1; 2] /\ x_row g = [0] /\ x_band_im g = Some [0; 1] /\
+             class_at (x_msk g) 0 0 = PNoData /\ class_at (x_msk g) 0 1 = PValid /\
+             x_no_data_img g = Some minus9999 /\
+             x_band_disp g = Some ["min"%string; "max"%string]) /\
+  (exists g, G.create_dataset_from_inputs ex_xi None = COk g /\ class_at (x_msk g) 1 2 = PInvalid) /\
+  G.create_dataset_from_inputs ex_xi (Some (mkRoi 3 4 0 1 0 0 0 0)) = CRaiseOutside.
+Proof. split; [|split]; [eexists; repeat split..|reflexivity]. Qed.
+
 Print Assumptions C16_window_is_clipped_roi.
 Print Assumptions C16_window_refused_iff_empty.
 Print Assumptions C16_roi_read_is_crop.
@@ -161,3 +403,15 @@ Print Assumptions C16_mask_semantics.
 Print Assumptions C16_mask_absent_iff.
 Print Assumptions C16_samples_unchanged.
 Print Assumptions C16_disparity_var.
+Print Assumptions C16_gen_add_disparity_eq.
+Print Assumptions C16_gen_add_classif_segm_eq.
+Print Assumptions C16_gen_add_no_data_eq.
+Print Assumptions C16_gen_add_mask_eq.
+Print Assumptions C16_gen_create_eq.
+Print Assumptions C16_gen_read_dtypes.
+Print Assumptions C16_gen_mask_semantics.
+Print Assumptions C16_gen_mask_absent_iff.
+Print Assumptions C16_gen_samples_unchanged.
+Print Assumptions C16_gen_disparity_var.
+Print Assumptions C16_gen_roi_dataset.
+Print Assumptions C16_gen_refused_iff_empty.
